@@ -206,6 +206,16 @@ int streamIter(std::istream& in)
       b.next_prime();
       std::cout << "moveout => " << iterState(*it) << "\n";
     }
+    else if (t[0] == "moveassignout")
+    {
+      // move ASSIGNMENT into a used iterator (which has its own buffers and generator), then
+      // continue with the moved-from object: it must behave like a fresh iterator
+      primesieve::iterator b(30000, 60000);
+      for (int j = 0; j < 3; j++) b.next_prime();
+      b = std::move(*it);
+      b.next_prime();
+      std::cout << "moveout => " << iterState(*it) << "\n";
+    }
     else if (t[0] == "selfmove")
     {
       primesieve::iterator& r = *it;
